@@ -82,10 +82,19 @@ def spec_call(engine, st, name, node):
         tmp = st.clone()
         tmp.vars, tmp.heap = dict(s_old[0]), dict(s_old[1])
         tmp.old = None
+        # values created after the pre-state (e.g. `result`, quantified
+        # variables) stay visible by value inside old(...)
+        for bv_ in engine.bound.values():
+            if isinstance(bv_, Ref) and bv_.id not in tmp.heap and bv_.id in st.heap:
+                tmp.heap[bv_.id] = st.heap[bv_.id]
         v = engine.eval(tmp, node.args[0])
         if isinstance(v, Ref):
             return tmp.heap[v.id]
         return v
+    if name == "same_node":
+        a = engine.deref(st, engine.eval(st, node.args[0]))
+        b = engine.deref(st, engine.eval(st, node.args[1]))
+        return Ty.mk_bool(engine.keyterm(a) == engine.keyterm(b))
     if name == "prev":
         snap = getattr(st, "iter_old", None)
         if snap is None:
@@ -110,11 +119,11 @@ def spec_call(engine, st, name, node):
         return V(Ty.Set(Key), [z3.SetDifference(A, B)])
     if name == "with_key":
         A = domain_of(engine, engine.deref(st, engine.eval(st, node.args[0])))
-        k = engine.keyterm(engine.eval(st, node.args[1]))
+        k = engine.keyterm(engine.deref(st, engine.eval(st, node.args[1])))
         return V(Ty.Set(Key), [z3.Store(A, k, True)])
     if name == "without_key":
         A = domain_of(engine, engine.deref(st, engine.eval(st, node.args[0])))
-        k = engine.keyterm(engine.eval(st, node.args[1]))
+        k = engine.keyterm(engine.deref(st, engine.eval(st, node.args[1])))
         return V(Ty.Set(Key), [z3.Store(A, k, False)])
     if name == "empty":
         return V(Ty.Set(Key), [z3.K(Ty.IntS, z3.BoolVal(False))])
@@ -330,7 +339,11 @@ def method_call(engine, st, base, bv, meth, node):
         if meth == "setdefault":
             need_ref()
             k = engine.keyterm(engine.deref(st, args[0]))
-            d = engine.coerce(engine.unbox_value(st, args[1]), t.v)
+            if isinstance(t.v, Ty.SDict):
+                # d.setdefault(k, dict()): the default is an empty string-keyed dict
+                d = Ty.sdict_empty(t.v)
+            else:
+                d = engine.coerce(engine.unbox_value(st, args[1]), t.v)
             present = bv.c[0][k]
             newvals = [z3.If(present, a, z3.Store(a, k, c)) for a, c in zip(bv.c[1:], d.c)]
             st.heap[base.id] = V(t, [z3.Store(bv.c[0], k, True)] + newvals)
@@ -341,6 +354,51 @@ def method_call(engine, st, base, bv, meth, node):
             return Ty.mk_none()
         if meth in ("items", "keys", "values"):
             raise Unsupported("dict view outside a for/comprehension")
+    if isinstance(t, Ty.SDict):
+        off = t.offsets()
+        if meth == "clear":
+            need_ref()
+            comps = list(bv.c)
+            for n_, (a, b, c, ft) in off.items():
+                comps[a] = z3.BoolVal(False)
+            st.heap[base.id] = V(t, comps)
+            return Ty.mk_none()
+        if meth == "copy":
+            return engine.alloc(st, bv)
+        if meth in ("pop", "get"):
+            k = args[0]
+            if not (isinstance(k, PyConst) and isinstance(k.val, str)):
+                raise Unsupported("string-keyed dict with a computed key")
+            if k.val not in off:
+                if len(args) > 1:
+                    return args[1] if not isinstance(args[1], V) or not isinstance(args[1].t, Ty._None) else Ty.mk_none()
+                raise Unsupported(f"key {k.val!r} outside the declared fields")
+            a, b, c, ft = off[k.val]
+            present = bv.c[a]
+            val = V(ft, bv.c[b:c])
+            if len(args) < 2:
+                if meth == "get":
+                    res = Ty.ite(present, Ty.mk_opt_some(val), Ty.mk_opt_none(ft)) if not ft.mutable else None
+                    if res is None:
+                        raise Unsupported("get() of a container field without default")
+                else:
+                    engine.oblige(st, present, f"popped key {k.val!r} present at line {engine.line(node)}", "safety", node)
+                    res = val
+            else:
+                d = args[1]
+                if isinstance(d, V) and isinstance(d.t, Ty._None):
+                    if ft.mutable or isinstance(ft, Ty.Opt):
+                        res = Ty.mk_none()  # result unused in the supported idiom pop(k, None)
+                    else:
+                        res = Ty.ite(present, Ty.mk_opt_some(val), Ty.mk_opt_none(ft))
+                else:
+                    res = Ty.ite(present, val, engine.coerce(engine.unbox_value(st, d), ft))
+            if meth == "pop":
+                need_ref()
+                comps = list(bv.c)
+                comps[a] = z3.BoolVal(False)
+                st.heap[base.id] = V(t, comps)
+            return res
     if isinstance(t, Ty.ODict):
         n = len(t.keys_t.sorts())
         if meth == "copy":
@@ -858,6 +916,15 @@ def eval_call(engine, st, node):
             if ext is not None:
                 return ext
             raise Unsupported(f"call to {qual}")
+        from .engine import MUTATORS
+
+        if meth in MUTATORS and isinstance(bv, V) and not isinstance(base, Ref) and bv.t.mutable and isinstance(f.value, (ast.Subscript, ast.Attribute, ast.Name)):
+            # mutating a container held by value inside another container:
+            # run the method on a temporary and write the result back
+            tmp = engine.alloc(st, bv)
+            res = method_call(engine, st, tmp, bv, meth, node)
+            engine.lv_set(st, f.value, st.heap[tmp.id], node)
+            return res
         if f"*.{meth}" in engine.contract.externals:
             ext = engine.external(st, f"*.{meth}", [base] + _args(engine, st, node), node, _kwargs(engine, st, node))
             if ext is not None:
